@@ -178,7 +178,7 @@ def run_check(modname: str, tier: str, seed: int, replay_path: str | None = None
         return 2
     for t in pm.required_tags(tier):
         if col.tags.get(t, 0) == 0:
-            print(f'MACHINERY FAILURE: vacuous run, required tag {t!r} never occurred', file=sys.stderr)
+            print(f'MACHINERY FAILURE: vacuous run, required tag {t!r} never occurred; tags seen: {dict(col.tags)}; skipped: {dict(col.skipped)}; evaluations: {col.evaluations}', file=sys.stderr)
             return 2
 
     # ---- classify failures against the known-findings file
